@@ -829,9 +829,15 @@ pub fn run_machine(out: &mut Out, seed: u64, n: u64) {
         // --- hand the structures to the CPU
         cpu::drain();
         let loaded = catch(|| unsafe {
-            gdt.load_unsafe();
-            load_tss(ts);
-            idt.load_unsafe();
+            if sc % 2 == 0 {
+                gdt.load_unsafe();
+                load_tss(ts);
+                idt.load_unsafe();
+            } else {
+                gdt.load(); // the safe variants for 'static tables
+                load_tss(ts);
+                idt.load();
+            }
         })
         .is_some();
         let ins = cpu::drain();
